@@ -188,7 +188,7 @@ class Signal:
 
 
 class Engine:
-    def __init__(self, index, registry, fi, contract, *, concrete=False, timeout_ms=2000):
+    def __init__(self, index, registry, fi, contract, *, concrete=False, timeout_ms=60):
         self.index = index
         self.reg = registry
         self.fi = fi                  # FuncInfo of the function under verification
@@ -446,13 +446,21 @@ class Engine:
             if both_py:
                 return a // b if isinstance(op, ast.FloorDiv) else a % b
             za, zb = Z(a), Z(b)
-            if isinstance(b, int) and b > 0:
-                q = za / zb
-            else:
-                q = z3.If(zb > 0, za / zb, (-za) / (-zb))
+            positive = isinstance(b, int) and b > 0
+            if not positive and not st.spec_mode:
+                # divisor positive on this path: z3's div/mod coincide with Python's // and %
+                can_pos, can_nonpos = self.decide(st, simp(zb > 0))
+                positive = not can_nonpos
+            elif not positive:
+                can_pos, can_nonpos = self.decide(st, simp(zb > 0))
+                positive = not can_nonpos
             if isinstance(op, ast.FloorDiv):
-                return simp(q)
-            return simp(za - zb * q)
+                if positive:
+                    return simp(za / zb)
+                return simp(z3.If(zb > 0, za / zb, (-za) / (-zb)))
+            if positive:
+                return simp(za % zb)
+            return simp(z3.If(zb > 0, za % zb, -((-za) % (-zb))))
         if isinstance(op, ast.Pow):
             if isinstance(b, int) and 0 <= b <= 4:
                 r = 1
